@@ -19,6 +19,9 @@ RULE = ('graph histories through the Connection API (create, link, unlink, modif
         'same closures must load identically (data, serial, end tid), loadSerial of every revision seen, post-T transactions '
         'identical in iterator and undoLog, undo of sampled post-T transactions gives the same result on packed and unpacked '
         'copies, a second pack at T and at an earlier time leaves the file byte-identical, an empty storage packs to nothing. '
+        'One case in four is a storage-level history (2-3 objects; store, undo, 2- and 3-transaction undo in one transaction - several '
+        'records of one object in one transaction -, delete) packed without gc at every boundary: every load of every object at '
+        'every snapshot above T, post-T transactions, undo log and undo outcomes compared with the unpacked file. '
         'evaluations = packs executed; distinct_nontrivial = distinct (history, T, gc) whose pack freed bytes and had at least '
         'one transaction after T.')
 LEVEL_TEXT = ('Held on the generated histories x all their pack times: everything the statement makes observable at or after T is '
@@ -30,7 +33,7 @@ REQUIRED_COUNTERS = ('packs', 'packs_that_freed_bytes', 'snapshot_views_compared
 
 
 def shards(tier, seed):
-    return split(tier, seed, 480, 4800, 45, 900)
+    return split(tier, seed, 1600, 48000, 45, 900)
 
 
 def view(st, s, strong_refs):
@@ -333,6 +336,170 @@ def run_case(sh, s, tier, d, case, only=None, prebuilt=None):
     return trace
 
 
+def driver_case(sh, s, tier, d, case, only=None):
+    """storage-level histories with multiple-undo transactions (several records of one object in one transaction, undo of
+    undo, undo of creation, deletions) packed without gc at every transaction boundary: for every object - reachable or not,
+    gc is off - every load at a snapshot above the pack time, the post-T transactions, the undo log and the outcome of
+    undoing post-T transactions must be the same on the packed copy, also after reopening; a second pack changes nothing"""
+    import base64
+    import time as _time
+    from zv import recfs, clock
+    from zv.driver import Driver
+    from zv.spec import canon, tid_points
+    from ZODB.serialize import referencesf
+    from ZODB.Connection import TransactionMetaData
+    from ZODB.POSException import UndoError
+    from ZODB.utils import p64, u64, maxtid
+    from persistent.TimeStamp import TimeStamp
+    rnd = random.Random(s ^ 0xd7)
+    FSM = recfs.install()
+    recfs.LOG.enabled = False
+    clock.install(clock.FakeClock())
+    src = os.path.join(d, 'Data.fs')
+    st = FSM.FileStorage(src)
+    dr = Driver(st, rnd, kind='file')
+    dr.oids = dr.oids[1:rnd.choice([3, 4])]
+    ops = ['store'] * 4 + ['undo'] * 4 + ['undo2'] * 3 + ['undo3', 'multi', 'delete']
+    for _ in range(rnd.choice([8, 12, 16] if tier == 'quick' else [12, 18, 26])):
+        dr.step(ops, lambda: FSM.FileStorage(src))
+    dr.st.close()
+    ref = FSM.FileStorage(src, read_only=True)
+    it = ref.iterator()
+    txs = [(t.tid, [r.oid for r in t]) for t in it]
+    it.close()
+    tids = [t for t, _ in txs]
+    oids = sorted({o for _, os_ in txs for o in os_})
+    multi = any(len(os_) != len(set(os_)) for _, os_ in txs)
+    sh.note('storage_kinds', 'file:storage-level')
+
+    def norm(x):
+        return ('absent',) if x in (('ok', None), ('POSKeyError',)) else x
+
+    def loads(stg, pts):
+        out = {}
+        for o in oids:
+            out[(o, 'cur')] = norm(canon(stg.load, o))
+            for p_ in pts:
+                out[(o, p_)] = norm(canon(stg.loadBefore, o, p_))
+        return out
+
+    def undo_all(path, utid):
+        fs = FSM.FileStorage(path)
+        try:
+            t = TransactionMetaData(b'', b'probe undo')
+            fs.tpc_begin(t)
+            try:
+                fs.undo(base64.encodebytes(utid).rstrip(), t)
+            except UndoError:
+                fs.tpc_abort(t)
+                return ('refused',)
+            fs.tpc_vote(t)
+            ntid = fs.tpc_finish(t)
+            out = {}
+            for o in oids:
+                x = norm(canon(fs.load, o))
+                out[o] = (x[1][0], x[1][1] == ntid) if x[0] == 'ok' else x
+            return ('ok', out)
+        finally:
+            fs.close()
+    try:
+        for ti, T in enumerate(tids):
+            if only is not None and ti != only:
+                continue
+            if not sh.time_left() and only is None:
+                break
+            ptime = TimeStamp(T).timeTime() + 0.0005
+            eff = TimeStamp(*_time.gmtime(ptime)[:5] + (ptime % 60,)).raw()      # the tid the pack time corresponds to
+            pts = [p_ for p_ in tid_points(tids) if p_ > eff]
+            before = loads(ref, pts)
+            post_before = txn_list(ref, eff)
+            wit = {'kind': 'file', 'mode': 'storage-level', 'pack_after_txn': ti, 'gc': False, 'trace': dr.trace}
+            c2 = dict(case, only=ti)
+            w = os.path.join(d, 'w')
+            shutil.rmtree(w, ignore_errors=True)
+            os.makedirs(w)
+            wpath = os.path.join(w, 'Data.fs')
+            shutil.copy(src, wpath)
+            tgt = FSM.FileStorage(wpath, pack_gc=False)
+            ul_before = [x for x in tgt.undoLog(0, -1000) if base64.decodebytes(x['id'] + b'\n') > eff]
+            size_before = tgt.getSize()
+            sh.count('packs')
+            try:
+                tgt.pack(ptime, referencesf)
+            except Exception as e:
+                tgt.close()
+                sh.violation('c07:file:storage-level:pack-raises-%s' % type(e).__name__, dict(wit, exc=repr(e)[:200]), c2)
+                sh.case(None)
+                continue
+            freed = tgt.getSize() < size_before
+            if freed:
+                sh.count('packs_that_freed_bytes')
+            bad = False
+            for reopen in (False, True):
+                if reopen:
+                    tgt.close()
+                    tgt = FSM.FileStorage(wpath, pack_gc=False)
+                after = loads(tgt, pts)
+                sh.count('snapshot_views_compared', len(pts) + 1)
+                if after != before:
+                    k = sorted(k for k in before if before[k] != after[k])[0]
+                    b_, a_ = before[k], after[k]
+                    if b_ == ('absent',) and a_[0] == 'ok' and a_[1][1] <= eff:
+                        what = 'c07:file:uncreated-object-resurrected-after-pack'
+                    elif a_ == ('absent',):
+                        what = 'c07:file:storage-level:object-missing-after-pack'
+                    else:
+                        what = 'c07:file:storage-level:different-revision-after-pack'
+                    sh.violation(what, dict(wit, oid=k[0], snapshot=k[1], reopen=reopen, multi_undo_records=multi,
+                                            before=b_ if b_[0] != 'ok' else b_[1][1:], after=a_ if a_[0] != 'ok' else a_[1][1:]), c2)
+                    bad = True
+                    break
+                if txn_list(tgt, eff) != post_before:
+                    sh.violation('c07:file:storage-level:post-T-transactions-differ', dict(wit, reopen=reopen), c2)
+                    bad = True
+                    break
+                if [x for x in tgt.undoLog(0, -1000) if base64.decodebytes(x['id'] + b'\n') > eff] != ul_before:
+                    sh.violation('c07:file:undoLog-of-post-T-transactions-differs', dict(wit, reopen=reopen), c2)
+                    bad = True
+                    break
+            tgt.close()
+            if not bad:
+                cands = [t[0] for t in post_before if t[1] == ' ']
+                urnd = random.Random(s * 4099 + ti)
+                for utid in (cands if only is not None else urnd.sample(cands, min(len(cands), 2))):
+                    outs = []
+                    for srcp in (src, wpath):
+                        u = os.path.join(d, 'u')
+                        shutil.rmtree(u, ignore_errors=True)
+                        os.makedirs(u)
+                        shutil.copy(srcp, os.path.join(u, 'Data.fs'))
+                        outs.append(undo_all(os.path.join(u, 'Data.fs'), utid))
+                    sh.count('post_T_undo_comparisons')
+                    if outs[0] != outs[1]:
+                        sh.violation('c07:file:storage-level:undo-of-post-T-transaction-differs-after-pack',
+                                     dict(wit, undone=utid, unpacked=outs[0][0], packed=outs[1][0]), c2)
+                        bad = True
+                        break
+            if not bad:
+                with open(wpath, 'rb') as fh:
+                    b1 = fh.read()
+                tgt = FSM.FileStorage(wpath, pack_gc=False)
+                sh.count('idempotence_checks')
+                try:
+                    tgt.pack(ptime, referencesf)
+                except Exception as e:
+                    sh.note('second_pack_refusals', type(e).__name__)
+                tgt.close()
+                with open(wpath, 'rb') as fh:
+                    b2 = fh.read()
+                if b2 != b1:
+                    sh.violation('c07:file:second-pack-%s' % classify_second_pack(b1, b2, 'same'), dict(wit, sizes=(len(b1), len(b2))), c2)
+            sh.case(digest('drv', s, ti) if freed and post_before and multi else None)
+    finally:
+        ref.close()
+    return dr.trace
+
+
 def classify_second_pack(b1, b2, lbl):
     """mechanism of a non-idempotent second pack, from an independent parse of both files"""
     from zv.fsparse import parse, canon_txns
@@ -391,7 +558,11 @@ def run_shard(params):
         s = case_seed(params, i)
         case = {'seed': s, 'tier': params['tier']}
         d = sh.fresh_dir('c07')
-        tr = guarded(sh, 'c07', case, lambda: run_case(sh, s, params['tier'], d, case))
+        if i % 4 == 3:
+            case['mode'] = 'storage-level'
+            tr = guarded(sh, 'c07', case, lambda: driver_case(sh, s, params['tier'], d, case))
+        else:
+            tr = guarded(sh, 'c07', case, lambda: run_case(sh, s, params['tier'], d, case))
         sh.count('histories')
         if tr is not None and len(sh.samples) < 2:
             sh.samples.append({'seed': s, 'trace': tr})
@@ -438,6 +609,8 @@ def replay(case, scratch):
         return sh.violations
     if case.get('empty'):
         guarded(sh, 'c07', case, lambda: empty_pack(sh, sh.fresh_dir('e'), case))
+    elif case.get('mode') == 'storage-level':
+        guarded(sh, 'c07', case, lambda: driver_case(sh, case['seed'], case.get('tier', 'quick'), sh.fresh_dir('c07'), case, only=case.get('only')))
     else:
         guarded(sh, 'c07', case, lambda: run_case(sh, case['seed'], case.get('tier', 'quick'), sh.fresh_dir('c07'), case, only=case.get('only')))
     return sh.violations
